@@ -336,6 +336,7 @@ fn run_once(
         return results;
     }
     let mut model = harness::new_model(store_cfg);
+    model.cfg.sees_all_calls = true;
     let mut resolver = Resolver {
         keys: &sc.keys,
         writer: 0,
